@@ -36,13 +36,15 @@ def strict_eq(a, b):
 def main():
     import jsonlogic_rs
     scen_path, out_path = sys.argv[1], sys.argv[2]
-    out = open(out_path, "w")
+    start = int(sys.argv[3]) if len(sys.argv) > 3 else 0      # resume after a scenario that hung
+    out = open(out_path, "a" if start else "w")
     n = ok = bad = 0
     samples = []
     for ln, line in enumerate(open(scen_path)):
         if not line.strip(): continue
+        if ln < start: continue
         s = json.loads(line)
-        open(out_path + ".progress", "w").write(line)
+        open(out_path + ".progress", "w").write("%d\n%s" % (ln, line))
         n += 1
         calls = {"ser": 0, "deser": 0}
         def custom_ser(x):
